@@ -32,7 +32,7 @@ META = {
 
 # ----------------------------------------------------------------------------- tape families
 def t_generic(qp, rng, gen, **kw):
-    tape, wires = gen.random_tape(qp, rng, nw=int(rng.integers(2, 5)), n_ops=int(rng.integers(2, 12)), kinds=("expval", "probs"), **kw)
+    tape, wires = gen.random_tape(qp, rng, nw=int(rng.integers(2, 5)), n_ops=int(rng.integers(2, 12)), kinds=("expval", "probs", "var"), **kw)
     return tape
 
 
@@ -43,7 +43,15 @@ def t_trainable(qp, rng, gen, pool=("RX", "RY", "RZ", "CNOT", "Hadamard", "CRX",
     ops = [o for o in ops if type(o).__name__ not in ("Adjoint2", "Pow2", "Adjoint", "Pow")] or [qp.RX(0.3, 0)]
     if not any(o.num_params for o in ops):
         ops.append(qp.RY(float(rng.uniform(-3, 3)), wires=0))
-    ms = [qp.expval(gen.random_observable(qp, rng, wires, obs)) for _ in range(int(rng.integers(1, 3)))]
+    ms = []
+    for _ in range(int(rng.integers(1, 3))):
+        r = rng.random()
+        if r < 0.45:
+            ms.append(qp.expval(gen.random_observable(qp, rng, wires, obs if rng.random() < 0.5 else ("pauli", "herm", "proj", "sum", "sprod"))))
+        elif r < 0.85:  # variances incl. non-involutory observables (var(A) -> expval(A^2) rewrites inside gradient transforms)
+            ms.append(qp.var(gen.random_observable(qp, rng, wires, ("pauli", "herm", "proj", "sprod"))))
+        else:
+            ms.append(qp.probs(wires=wires[: int(rng.integers(1, nw + 1))]))
     tape = qp.tape.QuantumScript(ops, ms)
     npar = len(tape.get_parameters(trainable_only=False))
     k = int(rng.integers(1, npar + 1))
